@@ -69,6 +69,27 @@ fn durations(s: &mut ObservableState) -> Vec<&mut NtpDuration> {
     v
 }
 
+// A reader that delivers its bytes in small pieces, like a socket: read_json must loop until the whole
+// announced payload has arrived (added after a seeded change that parsed whatever the first read returned).
+struct Chunked<'a> {
+    data: &'a [u8],
+    chunk: usize,
+}
+
+impl tokio::io::AsyncRead for Chunked<'_> {
+    fn poll_read(
+        mut self: std::pin::Pin<&mut Self>,
+        _cx: &mut std::task::Context<'_>,
+        buf: &mut tokio::io::ReadBuf<'_>,
+    ) -> std::task::Poll<std::io::Result<()>> {
+        let n = self.chunk.min(buf.remaining()).min(self.data.len());
+        let (head, tail) = self.data.split_at(n);
+        buf.put_slice(head);
+        self.data = tail;
+        std::task::Poll::Ready(Ok(()))
+    }
+}
+
 fn roundtrip<T: serde::Serialize + serde::de::DeserializeOwned>(v: &T) -> (u64, usize, bool, Result<T, u8>) {
     let r = rt();
     let mut out: Vec<u8> = Vec::new();
@@ -77,9 +98,9 @@ fn roundtrip<T: serde::Serialize + serde::de::DeserializeOwned>(v: &T) -> (u64, 
     let hdr = if out.len() >= 8 { u64::from_be_bytes(out[..8].try_into().unwrap()) } else { u64::MAX };
     let frame_ok = out.len() >= 8 && out[8..] == payload[..];
     let mut buf = Vec::new();
-    let mut rd: &[u8] = &out[..];
+    let mut rd = Chunked { data: &out[..], chunk: 7 + out.len() % 5 };
     let back: Result<T, u8> = match r.block_on(read_json::<T>(&mut rd, &mut buf)) {
-        Ok(x) if rd.is_empty() => Ok(x),
+        Ok(x) if rd.data.is_empty() => Ok(x),
         Ok(_) => Err(8),
         Err(e) => Err(class(&e)),
     };
@@ -111,9 +132,9 @@ fn verif_c38_driver() {
                 _ => None,
             };
             let mut buf = vec![1u8, 2, 3];
-            let mut rd: &[u8] = &stream[..];
+            let mut rd = Chunked { data: &stream[..], chunk: 3 + stream.len() % 11 };
             let res = rt().block_on(read_json::<serde_json::Value>(&mut rd, &mut buf));
-            let consumed = stream.len() - rd.len();
+            let consumed = stream.len() - rd.data.len();
             let (cls, same) = match (&res, &independent) {
                 (Ok(v), Some(Ok(w))) => (0, if v == w { "1" } else { "0" }),
                 (Ok(_), _) => (0, "0"),
